@@ -617,6 +617,11 @@ func (e *tcpEngine) serveFrame(j *tcpJob, length int) bool {
 // rejectInPlace frames the library-shaped bare-header rejection from the
 // job's TX headroom, allocation-free.
 func (j *tcpJob) rejectInPlace(verdict acceptVerdict, _ int) {
+	if a, ok := j.engine.handler.(sourceAdmitter); ok && !a.AdmitsSource(j.RemoteAddr()) {
+		// Outside the access list: silent, like every other query from
+		// this source.
+		return
+	}
 	out := j.tx[dnsclient.FramePrefixLen : dnsclient.FramePrefixLen+wire.HeaderLen]
 	for i := range out {
 		out[i] = 0
